@@ -1133,9 +1133,11 @@ func selfTest(r *vh.Run, tbl []caseSpec) {
 		m.Items = append([]itemSpec{}, c.Items...)
 		changed := false
 		for j := range m.Items {
-			if m.Items[j].Class != "empty" && m.Items[j].Class != "b64-empty" {
-				m.Items[j].Salt++
-				changed = true
+			m.Items[j].Salt++
+			if isTextKind(m.Items[j].Kind) {
+				changed = changed || buildText(m.Items[j].Class, m.Items[j].Salt) != buildText(c.Items[j].Class, c.Items[j].Salt)
+			} else {
+				changed = changed || buildData(m.Items[j].Class, m.Items[j].Salt) != buildData(c.Items[j].Class, c.Items[j].Salt)
 			}
 		}
 		var same, other []diff
